@@ -125,7 +125,7 @@ package genetics
 //@ pred geneLinksWF(gs []*Gene) = forall i :: 0 <= i && i < len(gs) ==> gs[i].Link != nil && gs[i].Link.InNode != nil && gs[i].Link.OutNode != nil
 //@ pred endpointsAreNodes(g *Genome) = forall i :: 0 <= i && i < len(g.Genes) ==> (exists a :: 0 <= a && a < len(g.Nodes) && g.Nodes[a].Id == g.Genes[i].Link.InNode.Id) && (exists b :: 0 <= b && b < len(g.Nodes) && g.Nodes[b].Id == g.Genes[i].Link.OutNode.Id)
 //@ func (*Genome).duplicate
-//@   props C06 C10
+//@   props C06 C10 C01
 //@   requires g != nil && nonNilTraits(g.Traits) && nonNilNodes(g.Nodes) && nonNilGenes(g.Genes) && geneLinksWF(g.Genes)
 //@   requires endpointsAreNodes(g)
 //@   requires sortedNodesLT(g.Nodes)
@@ -344,7 +344,7 @@ package genetics
 // the genetic content of every pre-existing gene and link, except the enabled flags
 //@ pred geneticsKept() = (forall x *Gene :: wasAllocated(x) ==> x.InnovationNum == old(x.InnovationNum) && x.MutationNum == old(x.MutationNum) && x.Link == old(x.Link)) && (forall l *network.Link :: wasAllocated(l) ==> l.ConnectionWeight == old(l.ConnectionWeight) && l.InNode == old(l.InNode) && l.OutNode == old(l.OutNode) && l.IsRecurrent == old(l.IsRecurrent) && l.Trait == old(l.Trait))
 //@ func (*Genome).mutateAddNode
-//@   props C05 C03 C16
+//@   props C05 C03 C16 C01
 //@   requires genomeShape(g) && !isNilIface(innovations) && !isNilIface(nodeIdGenerator) && opts != nil
 //@   ensures [lens] result0 ==> len(g.Genes) == old(len(g.Genes)) + 2 && len(g.Nodes) == old(len(g.Nodes)) + 1
 //@   ensures [noop] !result0 ==> sameSlice(g.Genes, old(g.Genes)) && sameSlice(g.Nodes, old(g.Nodes)) && unchanged(g.Genes) && unchanged(g.Nodes)
@@ -461,7 +461,7 @@ package genetics
 //@ pred srcIsA(i1 int, chosen *Gene, g *Genome) = i1 > 0 && chosen == g.Genes[i1-1]
 //@ pred better1(f1 float64, f2 float64, g *Genome, og *Genome) = f1 > f2 || (f1 == f2 && len(g.Genes) < len(og.Genes))
 //@ func (*Genome).mateMultipoint
-//@   props C04
+//@   props C04 C01
 //@   mode nosafety
 //@   assert [cut.bounds] 0 <= i1 && i1 <= size1 && 0 <= i2 && i2 <= size2 && size1 == len(g.Genes) && size2 == len(og.Genes) && len(newTraits) == len(g.Traits) && childNodesMap != nil && fresh(childNodesMap) @ after 1 NewGeneCopy
 //@   assert [cut.traits] forall i :: 0 <= i && i < len(newTraits) ==> newTraits[i] != nil && newTraits[i].Id == g.Traits[i].Id && (forall k :: 0 <= k && k < len(g.Traits[i].Params) ==> newTraits[i].Params[k] == (g.Traits[i].Params[k] + og.Traits[i].Params[k]) / 2.0) @ after 1 NewGeneCopy
@@ -592,7 +592,7 @@ package genetics
 // The two other crossovers: only what C02/C10 need of them is claimed here -- a successful call returns a genome allocated by
 // this very call (the alignment law of C04 is proved for mateMultipoint only). The callees' preconditions are assumptions.
 //@ func (*Genome).mateMultipointAvg
-//@   props C02 C10 C04
+//@   props C02 C10 C04 C01
 //@   mode nosafety
 //@   assume_pre mateTraits, NewNNodeCopy, NewGeneCopy, nodeInsert, mateModules, newGenome
 //@   requires g != nil && og != nil && nonNilNodes(og.Nodes)
@@ -620,7 +620,7 @@ package genetics
 //@     invariant nonNilNodes(newNodes)
 //@     invariant [io] forall i :: 0 <= i && i < len(og.Nodes) && isIO(og.Nodes[i]) ==> (exists j :: 0 <= j && j < len(newNodes) && newNodes[j].Id == og.Nodes[i].Id)
 //@ func (*Genome).mateSinglePoint
-//@   props C02 C10 C04
+//@   props C02 C10 C04 C01
 //@   mode nosafety
 //@   assume_pre mateTraits, NewNNodeCopy, NewGeneCopy, nodeInsert, mateModules, newGenome
 //@   requires g != nil && og != nil && nonNilNodes(og.Nodes)
@@ -717,7 +717,7 @@ package genetics
 //@ spec outDeg(g *Genome, k int, n *network.NNode) int = cntEnd(old(arrOf(g.Genes)), old(off(g.Genes)), k, old(heapOf(Gene.IsEnabled)), old(heapOf(Gene.Link)), old(heapOf(network.Link.InNode)), n)
 //@ spec inDeg(g *Genome, k int, n *network.NNode) int = cntEnd(old(arrOf(g.Genes)), old(off(g.Genes)), k, old(heapOf(Gene.IsEnabled)), old(heapOf(Gene.Link)), old(heapOf(network.Link.OutNode)), n)
 //@ func (*Genome).Genesis
-//@   props C11 C05
+//@   props C11 C05 C01
 //@   mode nosafety
 //@   assume_pre NewNNodeCopy, NewNetwork, NewModularNetwork, NewLinkWithTrait
 //@   requires g != nil && nonNilNodes(g.Nodes) && nonNilGenes(g.Genes) && geneLinksWF(g.Genes) && endpointsInNodes(g) && len(g.ControlGenes) == 0
@@ -763,7 +763,7 @@ package genetics
 //@ pred sensorNode(n *network.NNode) = n.NeuronType == network.InputNeuron || n.NeuronType == network.BiasNeuron
 //@ pred linkIs(gn *Gene, a *network.NNode, b *network.NNode, rec bool) = gn.Link.InNode.Id == a.Id && gn.Link.OutNode.Id == b.Id && gn.Link.IsRecurrent == rec
 //@ func (*Genome).mutateAddLink
-//@   props C05
+//@   props C05 C01
 //@   mode nosafety
 //@   assume_pre Intn
 //@   requires genomeShape(g) && !isNilIface(innovations) && opts != nil
@@ -771,6 +771,7 @@ package genetics
 //@   ensures [oneGene] result0 && result1 == nil ==> len(g.Genes) == old(len(g.Genes)) + 1
 //@   ensures [noop] !result0 ==> sameSlice(g.Genes, old(g.Genes)) && unchanged(g.Genes)
 //@   ensures [nodesKept] sameSlice(g.Nodes, old(g.Nodes)) && unchanged(g.Nodes)
+//@   ensures [order] result1 == nil ==> sortedLE(g.Genes) && nonNilGenes(g.Genes)
 //@   ensures [oldGenesKept] forall i :: 0 <= i && i < old(len(g.Genes)) ==> old(g.Genes[i]) == g.Genes[i] || (i + 1 < len(g.Genes) && old(g.Genes[i]) == g.Genes[i+1])
 //@   ensures_local [notIntoSensor] result0 ==> node1 != nil && node2 != nil && !sensorNode(node2)
 //@   ensures_local [noDuplicate] result0 ==> (forall i :: 0 <= i && i < old(len(g.Genes)) ==> !linkIs(old(g.Genes[i]), node1, node2, doRecur))
